@@ -45,6 +45,10 @@ TRUSTED = [
     "equal to it for all inputs.  Trusted: the translator; the atom table (own_params['nets_gateway'] = Env.gateway, "
     "source_params['nets_gateway'] = Env.srcGateway, ... own_params['shared_pool'].lstrip(':') = lstripColon sharedPool; "
     "the reads are total, i.e. the keys exist)",
+    "GenPool.lean also holds genProximity, regenerated from the nested function `proximity` of get_sources (the sort "
+    "key); proximity_matches_source proves the hand written proximity equal to it for all inputs.  Trusted in addition: "
+    "`source.split(':')` yields exactly (net, path) — Src is the parsed pair; source_params = "
+    "params.object_params(net) if net else params is bound to Env.srcGateway / Env.srcHost as for get_source_scope",
 ]
 
 SCOPES = ["own", "swarm", "cluster", "shared"]
@@ -229,7 +233,8 @@ def _extract_gen(ctx):
     if pygen.extract_pool(ctx):
         ctx.notes.append("I2N/Extracted/GenPool.lean changed: the source of get_source_scope differs from the one the "
                          "committed file was generated from (sourceScope_matches_source is re-checked)")
-    ctx.extra["regenerated"] = "lean/I2N/Extracted/GenPool.lean (SourcedStateBackend.get_source_scope via harness/pygen.py)"
+    ctx.extra["regenerated"] = ("lean/I2N/Extracted/GenPool.lean (SourcedStateBackend.get_source_scope, "
+                                "get_sources.proximity via harness/pygen.py)")
 
 
 def _extract_tables(ctx):
